@@ -885,12 +885,18 @@ class StyleProperties:
     def from_model(cls, xml_element, model_value: styles.TextEmphasisType):
       actual_values = []
 
-      actual_values.append(model_value.style.value)
+      if model_value is styles.SpecialValues.none:
 
-      if model_value.color is not None:
-        actual_values.append(StyleProperties.to_ttml_color(model_value.color))
+        actual_values.append(model_value.value)
 
-      actual_values.append(model_value.position.value) 
+      else:
+
+        actual_values.append(model_value.style.value)
+
+        if model_value.color is not None:
+          actual_values.append(StyleProperties.to_ttml_color(model_value.color))
+
+        actual_values.append(model_value.position.value) 
 
       xml_element.set(
         f"{{{cls.ns}}}{cls.local_name}",
@@ -960,6 +966,9 @@ class StyleProperties:
 
     @classmethod
     def has_px(cls, attrib_value: styles.TextShadowType) -> bool:
+
+      if attrib_value is styles.SpecialValues.none:
+        return False
 
       for shadow in attrib_value.shadows:
         if shadow.x_offset.units == styles.LengthType.Units.px or \
